@@ -57,7 +57,7 @@ def layouts(N, tier, seed):
             for dt in dts:
                 k += 1
                 yield {'backend': 'flat', 'ext': L.FLAT_EXT[k % 4], 'offset': OFFSETS[(k // 3) % 4],
-                       'dtype': dt, 'nc': NCS[(k // 2) % 4], 'parts': parts}
+                       'dtype': dt, 'nc': NCS[(k // 2) % 4], 'parts': parts, 'relative': k % 9 == 4}
         for j, parts in enumerate(L.compositions(n)):
             if j % 3 == n % 3:
                 k += 1
@@ -108,6 +108,10 @@ def all_items(n, lists):
         for b in vals:
             if len(range(*slice(a, b).indices(n))) >= 1:
                 out.append(slice(a, b))
+                if a is not None and b is not None and a >= 0 and b >= 0 and (a + b) % 3 == 0:
+                    # bounds carried by NumPy scalars (signed and unsigned)
+                    out.append(slice(np.uint16(a), np.int64(b)))
+                    out.append(slice(np.int32(a), np.uint8(b)))
     if lists:
         for r in range(1, n + 1):
             for sub in itertools.combinations(range(n), r):
@@ -148,7 +152,7 @@ def col_selectors(nc):
 
 def item_key(it):
     if isinstance(it, slice):
-        return ('s', it.start, it.stop)
+        return ('s', type(it.start).__name__, it.start if it.start is None else int(it.start), it.stop if it.stop is None else int(it.stop))
     if isinstance(it, (list, np.ndarray)):
         return (type(it).__name__, str(getattr(it, 'dtype', '')), tuple(int(x) for x in it))
     return (type(it).__name__, int(it))
@@ -175,7 +179,19 @@ def open_layout(lay, d):
     if be == 'flat':
         paths = L.write_flat(d, A, lay['parts'], offset=lay['offset'], ext=lay['ext'])
         arg = paths if (len(paths) > 1 or n % 2) else paths[0]
+        if lay.get('relative'):
+            # environment: files named relative to the working directory, which changes before the first read;
+            # a decoy with the same names (other bytes) sits in the new working directory
+            import os
+            from pathlib import Path
+            decoy = os.path.join(d, 'elsewhere')
+            os.makedirs(decoy, exist_ok=True)
+            L.write_flat(decoy, A[::-1].copy(), lay['parts'], offset=lay['offset'], ext=lay['ext'])
+            os.chdir(d)
+            arg = [Path(p.name) for p in paths]
         r = call(get_ephys_reader, arg, sample_rate=rate, dtype=dt, n_channels=nc, offset=lay['offset'])
+        if lay.get('relative'):
+            os.chdir(decoy)
         bounds = np.r_[0, np.cumsum(lay['parts'])].tolist()
     elif be == 'npy':
         p = L.write_npy(d, A)
@@ -193,10 +209,13 @@ def open_layout(lay, d):
 
 
 def run_case(case, ctx):
+    import os
     d = scratch_dir('c01_')
+    cwd0 = os.getcwd()
     try:
         _run(case, ctx, d)
     finally:
+        os.chdir(cwd0)
         shutil.rmtree(d, ignore_errors=True)
 
 
@@ -283,5 +302,20 @@ def _run(case, ctx, d):
             if dd:
                 ctx.violation('read_mismatch', sub, 'reader[%r%s]: %s' % (
                     it, '' if cols is None else ', %r' % (cols,), dd), f2)
+    # aliasing: blocks returned earlier are modified in place by the caller; later reads must not see that
+    for it in [x for x in items if isinstance(x, (slice, int))][:6]:
+        rr = call(lambda: rd[it])
+        if rr.ok and isinstance(rr.value, np.ndarray) and rr.value.flags.writeable and rr.value.size:
+            rr.value[...] = rr.value + 7 if rr.value.dtype.kind != 'b' else rr.value
+            ctx.mon('returned_block_modified')
+    for it in [x for x in items if isinstance(x, (slice, int))][:6]:
+        rr = call(lambda: rd[it])
+        exp = A[it] if not isinstance(it, (int, np.integer)) else A[int(it)][None, :]
+        ctx.count(1, cell=(be, lay['dtype'], 'after_caller_modified_blocks'))
+        if not rr.ok or same(rr.value, exp):
+            ctx.violation('read_mismatch', dict(lay, items=[it], cols=[None]),
+                          'after the caller modified earlier results in place, reader[%r]: %s' % (
+                              it, rr.exc if not rr.ok else same(rr.value, exp)), dict(feats, after_mutation=True))
+            break
     if be == 'cbin':
         call(rd.reader.close)
